@@ -237,7 +237,7 @@ theorem Inv_init : Inv {} := by
   · intro i w hi; simp at hi
   · intro i w hi; simp at hi
   · intro i w hi; simp at hi
-  · exact { hello0 := fun hl => (by cases hl), hello1 := fun hl => (by cases hl), notLive := fun _ => ⟨rfl, rfl, rfl⟩,
+  · exact { hello0 := fun hl => (by cases hl), hello1 := fun hl => (by cases hl), notLive := fun _ => ⟨Or.inl rfl, rfl, rfl⟩,
             netFlush := fun hx => (by rcases hx with hx | hx <;> cases hx), pfx := List.nil_prefix, nr := fun _ => rfl,
             upb := fun sg hx => (by cases hx), arb := fun sg hx => (by cases hx), lc := fun hl => (by cases hl) }
   · intro i w hi; simp at hi
